@@ -181,6 +181,11 @@ pub fn run(path: &str, out: &mut dyn Write) {
                             let cuts: Vec<usize> = t[ci + 2..].iter().filter_map(|x| x.parse().ok()).collect();
                             let obs: Vec<String> = cuts.iter().map(|&k| crate::image::observe(&b[..k.min(b.len())])).collect();
                             writeln!(out, "{input} IMPL {}{flags}", obs.join(" ; ")).unwrap();
+                        } else if flags.contains("MODE=full") && flags.contains(" BEH=") {
+                            // BEH is recomputed as far as the image alone allows
+                            let beh = crate::image::replay_beh(&b);
+                            let fl: Vec<String> = flags.split(' ').map(|x| if x.starts_with("BEH=") { format!("BEH={beh}") } else { x.to_string() }).collect();
+                            writeln!(out, "{input} IMPL {}{}", crate::image::observe(&b), fl.join(" ")).unwrap();
                         } else {
                             writeln!(out, "{input} IMPL {}{flags}", crate::image::observe(&b)).unwrap();
                         }
